@@ -2,6 +2,7 @@ use crate::engine::Run;
 pub mod c01;
 pub mod c02;
 pub mod c05;
+pub mod c06;
 pub mod c07;
 pub mod c17;
 pub mod c18;
@@ -12,6 +13,7 @@ pub fn dispatch(prop: &str, run: Run) -> Option<i32> {
         "C01" => c01::run(run),
         "C02" => c02::run(run),
         "C05" => c05::run(run),
+        "C06" => c06::run(run),
         "C07" => c07::run(run),
         "C17" => c17::run(run),
         "C18" => c18::run(run),
